@@ -1587,8 +1587,8 @@ func (r *run) settle() {
 	if len(r.w.in.Subs) == 0 {
 		return
 	}
-	prev := -1
-	for i := 0; i < 400; i++ {
+	prev, stable := -1, 0
+	for i := 0; i < 1200; i++ {
 		time.Sleep(3 * time.Millisecond)
 		r.mu.Lock()
 		n := 0
@@ -1596,7 +1596,12 @@ func (r *run) settle() {
 			n += len(l)
 		}
 		r.mu.Unlock()
-		if n == prev && i > 10 {
+		if n == prev {
+			stable++
+		} else {
+			stable = 0
+		}
+		if stable >= 25 && i > 10 { // no delivery for 75 ms
 			return
 		}
 		prev = n
@@ -1742,6 +1747,18 @@ func (r *run) checkDelivery() {
 			r.mu.Unlock()
 			if wasFatal && !visible {
 				r.violL("C14", "fatal-not-visible-as-failed", fmt.Sprintf("%s/%s was refused with a fatal error but is not reported as a failed event (retries=%d)", sub.Name, n, j.Retries))
+			}
+			if !wasFatal && keepsFailing && j.Retries < 20 {
+				// the retry goroutines of the code under test run on their own (nanosecond delay); on a loaded machine they can be
+				// descheduled for longer than settle() waits: give the budget up to 10 s to be spent before judging
+				for w := 0; w < 200 && j.Retries < 20; w++ {
+					time.Sleep(50 * time.Millisecond)
+					if jj, still := r.jobs(sub.Name)[n]; still {
+						j = jj
+					} else {
+						break
+					}
+				}
 			}
 			if !wasFatal && keepsFailing && j.Retries < 20 {
 				r.violL("C14", "retries-stopped-before-budget", fmt.Sprintf("%s/%s is still undelivered, the receiver keeps failing, but retrying stopped after %d of 20 attempts", sub.Name, n, j.Retries))
